@@ -1,6 +1,13 @@
 /- C14 — root of the property's theorems:
    C14   structure of the evaluators (regimes, agreement of the two evaluators, closed forms of the loops, budgets)
+   C14b  the real function K_l(z) = e^{-z} i_l(z) defined by the power series the code tabulates: closed forms for l = 0, 1,
+         three-term recurrence, derivative = the code's `recStep`, iterated derivatives = the recurrence iterated, the large-z
+         polynomial is exact up to an e^{-2z} term (< 1e-12 for z > 16, l ≤ 15), the small-z formula is within 2 z^(l+2)
    C14c  what `tabulate` stores, over ℝ: every K[i][l] is e^{-z} times a J-term partial sum of the power series of i_l,
-         the derivative tables are the recurrence applied n times, and for the shipped constants no table index is out of range -/
+         the derivative tables are the recurrence applied n times, and for the shipped constants no table index is out of range
+   C14d  C14b and C14c joined: stored rows converge to K_l(z) from below; derivative tables of an exact row are the true
+         derivatives; the table regime evaluates the Taylor polynomial of K_l about the node -/
 import Ecpint.Props.C14
+import Ecpint.Props.C14b
 import Ecpint.Props.C14c
+import Ecpint.Props.C14d
